@@ -56,6 +56,34 @@ theorem slideLoop_end (basis : Array W) (p : Pos) (top : Piece) (stack : W) (dx 
 
 
 
+theorem types_vals : Facts.mtPass = 1 ∧ Facts.mtPlaceFlat = 2 ∧ Facts.mtPlaceStanding = 3 ∧ Facts.mtPlaceCapstone = 4 ∧
+    Facts.mtSlideLeft = 5 ∧ Facts.mtSlideRight = 6 ∧ Facts.mtSlideUp = 7 ∧ Facts.mtSlideDown = 8 := by decide
+
+/-- `MovePreallocated` on a slide type code: opening rule, bounds check, then the slide branch -/
+theorem apply_slide_unfold (basis : Array W) (p : Pos) (m : Move) (d : Dir) (ht : m.type = dirCode d) :
+    p.apply basis m =
+      if p.move < 2 then .error (.illegal "illegal opening")
+      else if m.x < 0 ∨ m.x ≥ (p.cfg.size : Int) ∨ m.y < 0 ∨ m.y ≥ (p.cfg.size : Int) then .error (.illegal "off board")
+      else slideFrom basis p { p with move := p.move + 1 } m (m.x + m.y * (p.cfg.size : Int)).toNat d.dx d.dy := by
+  unfold Pos.apply dispatch openingRule
+  by_cases ho : p.move < 2 <;> cases d <;>
+    simp [ht, ho, dirCode, Facts.mtPass, Facts.mtPlaceFlat, Facts.mtPlaceStanding, Facts.mtPlaceCapstone,
+      Facts.mtSlideLeft, Facts.mtSlideRight, Facts.mtSlideUp, Facts.mtSlideDown, Dir.dx, Dir.dy]
+
+def placeCode : Kind → Nat
+  | .flat => Facts.mtPlaceFlat | .standing => Facts.mtPlaceStanding | .capstone => Facts.mtPlaceCapstone
+
+/-- `MovePreallocated` on a placement type code: opening rule, bounds check, then the placement branch -/
+theorem apply_place_unfold (basis : Array W) (p : Pos) (m : Move) (k : Kind) (ht : m.type = placeCode k) :
+    p.apply basis m =
+      if p.move < 2 ∧ k ≠ .flat then .error (.illegal "illegal opening")
+      else if m.x < 0 ∨ m.x ≥ (p.cfg.size : Int) ∨ m.y < 0 ∨ m.y ≥ (p.cfg.size : Int) then .error (.illegal "off board")
+      else placeOn p { p with move := p.move + 1 } (m.x + m.y * (p.cfg.size : Int)).toNat
+        ⟨if p.move < 2 then p.toMove.flip else p.toMove, k⟩ := by
+  unfold Pos.apply dispatch openingRule
+  by_cases ho : p.move < 2 <;> cases k <;>
+    simp [ht, ho, placeCode, Facts.mtPass, Facts.mtPlaceFlat, Facts.mtPlaceStanding, Facts.mtPlaceCapstone]
+
 theorem apply_slide_shape (basis : Array W) (p : Pos) (m : Move) (q : Pos) (d : Dir) (ht : m.type = dirCode d)
     (h : p.apply basis m = .ok q) :
     ¬ p.move < 2 ∧ 0 ≤ m.x ∧ m.x < p.cfg.size ∧ 0 ≤ m.y ∧ m.y < p.cfg.size ∧
@@ -66,24 +94,14 @@ theorem apply_slide_shape (basis : Array W) (p : Pos) (m : Move) (q : Pos) (d : 
     (p.toMove = .black → p.black.getLsbD (m.x + m.y * p.cfg.size).toNat = true) ∧
     ∃ top stack st st', st.x = m.x ∧ st.y = m.y ∧
       slideLoop basis p top stack d.dx d.dy (Slides.elems m.slides) st = .ok st' := by
-  have tc := types_cases
-  unfold Pos.apply at h
-  have e1 : (m.type == Facts.mtPass) = false := by cases d <;> simp [ht, dirCode, tc]
-  have e2 : (m.type == Facts.mtPlaceFlat) = false := by cases d <;> simp [ht, dirCode, tc]
-  have e3 : (m.type == Facts.mtPlaceStanding) = false := by cases d <;> simp [ht, dirCode, tc]
-  have e4 : (m.type == Facts.mtPlaceCapstone) = false := by cases d <;> simp [ht, dirCode, tc]
-  have hdisp : (if (m.type == Facts.mtSlideLeft) = true then some ((none : Option Piece), (-1 : Int), (0 : Int))
-      else if (m.type == Facts.mtSlideRight) = true then some (none, 1, 0)
-      else if (m.type == Facts.mtSlideUp) = true then some (none, 0, 1)
-      else if (m.type == Facts.mtSlideDown) = true then some (none, 0, -1) else none) = some (none, d.dx, d.dy) := by
-    cases d <;> simp [ht, dirCode, tc, Dir.dx, Dir.dy]
-  simp only [e1, e2, e3, e4, Bool.false_eq_true, if_false, hdisp] at h
+  rw [apply_slide_unfold basis p m d ht] at h
   by_cases hply : p.move < 2
-  · simp [hply] at h
-  simp only [hply, if_false] at h
+  · rw [if_pos hply] at h; cases h
+  rw [if_neg hply] at h
   by_cases hoff : m.x < 0 ∨ m.x ≥ ↑p.cfg.size ∨ m.y < 0 ∨ m.y ≥ ↑p.cfg.size
   · rw [if_pos hoff] at h; cases h
   rw [if_neg hoff] at h
+  unfold slideFrom at h
   by_cases hz : ((Slides.elems m.slides).any (· == 0)) = true
   · rw [if_pos hz] at h; cases h
   rw [if_neg hz] at h
@@ -109,60 +127,39 @@ theorem apply_slide_shape (basis : Array W) (p : Pos) (m : Move) (q : Pos) (d : 
     cases hbit : p.black.getLsbD (m.x + m.y * p.cfg.size).toNat
     · exact absurd ⟨by simp [e], by simp [hbit]⟩ hb
     · rfl
-  · split at h
-    · cases h
-    · rename_i top _
-      split at h
-      · cases h
-      · rename_i st' hst
-        exact ⟨_, _, _, st', rfl, rfl, hst⟩
-
-
-
-def placeCode : Kind → Nat
-  | .flat => Facts.mtPlaceFlat | .standing => Facts.mtPlaceStanding | .capstone => Facts.mtPlaceCapstone
+  · cases htop : p.topAt (m.x + m.y * p.cfg.size).toNat with
+    | none => rw [htop] at h; cases h
+    | some top =>
+      rw [htop] at h
+      simp only [] at h
+      split at h <;>
+        first
+        | cases h
+        | exact ⟨_, _, _, _, rfl, rfl, by assumption⟩
 
 theorem apply_place_shape (basis : Array W) (p : Pos) (m : Move) (q : Pos) (k : Kind) (ht : m.type = placeCode k)
     (h : p.apply basis m = .ok q) :
     0 ≤ m.x ∧ m.x < p.cfg.size ∧ 0 ≤ m.y ∧ m.y < p.cfg.size ∧
     (p.white ||| p.black).getLsbD (m.x + m.y * p.cfg.size).toNat = false ∧
     (p.move < 2 → k = .flat) ∧ (k = .capstone → capFlag p = true) := by
-  have tc := types_cases
-  unfold Pos.apply at h
-  have e1 : (m.type == Facts.mtPass) = false := by cases k <;> simp [ht, placeCode, tc]
-  have hdisp : (if (m.type == Facts.mtPlaceFlat) = true then some (some (⟨p.toMove, .flat⟩ : Piece), (0 : Int), (0 : Int))
-      else if (m.type == Facts.mtPlaceStanding) = true then some (some ⟨p.toMove, .standing⟩, 0, 0)
-      else if (m.type == Facts.mtPlaceCapstone) = true then some (some ⟨p.toMove, .capstone⟩, 0, 0)
-      else if (m.type == Facts.mtSlideLeft) = true then some (none, -1, 0)
-      else if (m.type == Facts.mtSlideRight) = true then some (none, 1, 0)
-      else if (m.type == Facts.mtSlideUp) = true then some (none, 0, 1)
-      else if (m.type == Facts.mtSlideDown) = true then some (none, 0, -1) else none) = some (some ⟨p.toMove, k⟩, 0, 0) := by
-    cases k <;> simp [ht, placeCode, tc]
-  simp only [e1, Bool.false_eq_true, if_false, hdisp] at h
-  by_cases hply : p.move < 2
-  · simp only [hply, if_true] at h
-    by_cases hk : k ≠ .flat
-    · rw [if_pos hk] at h; cases h
-    rw [if_neg hk] at h
-    simp only [] at h
-    have hk' : k = .flat := by simpa using hk
-    subst hk'
-    by_cases hoff : m.x < 0 ∨ m.x ≥ ↑p.cfg.size ∨ m.y < 0 ∨ m.y ≥ ↑p.cfg.size
-    · rw [if_pos hoff] at h; cases h
-    rw [if_neg hoff] at h
-    by_cases hocc : (p.white ||| p.black).getLsbD (m.x + m.y * p.cfg.size).toNat = true
-    · rw [if_pos hocc] at h; cases h
-    refine ⟨by omega, by omega, by omega, by omega, by simpa using hocc, fun _ => rfl, fun e => by cases e⟩
-  · simp only [hply, if_false] at h
-    by_cases hoff : m.x < 0 ∨ m.x ≥ ↑p.cfg.size ∨ m.y < 0 ∨ m.y ≥ ↑p.cfg.size
-    · rw [if_pos hoff] at h; cases h
-    rw [if_neg hoff] at h
-    by_cases hocc : (p.white ||| p.black).getLsbD (m.x + m.y * p.cfg.size).toNat = true
-    · rw [if_pos hocc] at h; cases h
-    rw [if_neg hocc] at h
-    refine ⟨by omega, by omega, by omega, by omega, by simpa using hocc, fun e => absurd e hply, ?_⟩
-    intro hk
+  rw [apply_place_unfold basis p m k ht] at h
+  by_cases hopen : p.move < 2 ∧ k ≠ .flat
+  · rw [if_pos hopen] at h; cases h
+  rw [if_neg hopen] at h
+  by_cases hoff : m.x < 0 ∨ m.x ≥ ↑p.cfg.size ∨ m.y < 0 ∨ m.y ≥ ↑p.cfg.size
+  · rw [if_pos hoff] at h; cases h
+  rw [if_neg hoff] at h
+  unfold placeOn at h
+  by_cases hocc : (p.white ||| p.black).getLsbD (m.x + m.y * p.cfg.size).toNat = true
+  · rw [if_pos hocc] at h; cases h
+  rw [if_neg hocc] at h
+  refine ⟨by omega, by omega, by omega, by omega, by simpa using hocc, ?_, ?_⟩
+  · intro hp
+    false_or_by_contra
+    exact hopen ⟨hp, by assumption⟩
+  · intro hk
     subst hk
+    have hp2 : ¬ p.move < 2 := fun hp => hopen ⟨hp, by simp⟩
     simp only [] at h
     unfold capFlag
     rcases toMove_cases p with hw | hb
